@@ -26,13 +26,16 @@ RULE = ("exhaustive: dimensions -1..5 x value containers (list, tuple, ndarray; 
         "0..6 in m/cm/ft/kg/no unit, ChangingIndex and IndexAsScalar for every index -7..6 and every value form) on "
         "source arrays of dimension 2..4 in three containers and three quantities; seeded random chains of 1..8 "
         "operations over a store of arrays (each step compared on the real pre-state, the whole chain compared "
-        "structurally through the model's history function); Curve constructor and SetImage/SetDomain sequences. "
+        "structurally through the model's history function); Curve constructor and SetImage/SetDomain sequences over arrays of every container shape (flat list / tuple / "
+        "1-D ndarray, FixedArray, list or tuple of pairs / triples, 2-D ndarray), exhaustively for all ordered pairs of a "
+        "34-array pool and randomly around colliding counts (same number of scalars, other number of points). "
         "distinct = distinct request; non-trivial = the request involves a size decision (a length, a dimension "
         "or an index is checked) and both sides answered")
 EXHAUSTIVE = {"quick": True, "thorough": True}
 ASSUMPTIONS = [
-    "values are 1-D containers of finite numbers (list, tuple, 1-D float64 ndarray); a str or an n-D ndarray in a "
-    "values slot is outside the modelled domain (e.g. a (3,) FixedArray plus a (2,1) ndarray broadcasts to a 2x3 "
+    "FixedArray part: values are 1-D containers of finite numbers (list, tuple, 1-D float64 ndarray) - the Curve part "
+    "also takes lists / tuples of tuples and 2-D ndarrays, of which only the sizes matter; a str or an n-D ndarray in a "
+    "FixedArray values slot is outside the modelled domain (e.g. a (3,) FixedArray plus a (2,1) ndarray broadcasts to a 2x3 "
     "array that the code accepts as a FixedArray of dimension 2: len(values) == dimension still holds)",
     "quantities are the empty quantity or simple (one category, one unit); arithmetic whose result is a derived "
     "quantity (array*array, array/array, number/array) is covered by the theorems (any operation_func) but not by "
@@ -276,6 +279,33 @@ def mk_operand(a):
     if a.get("cls") == "FixedArray":
         return FixedArray(len(vals), mk_qty(a["q"]), vals)
     return Array(mk_qty(a["q"]), vals)
+
+
+def mk_curve_array(a):
+    """An array handed to a Curve: flat (list / tuple / 1-D ndarray of numbers, possibly a FixedArray) or, with a
+    width `w`, a sequence of points (list of tuples, tuple of tuples, 2-D ndarray of shape (rows, w))."""
+    import numpy
+    from barril.units import Array
+
+    if a.get("w") is None:
+        return mk_operand(a)
+    rows = [tuple(float(dec(t)) for t in row) for row in a["v"]]
+    if a["k"] == K_LIST:
+        vals = rows
+    elif a["k"] == K_TUPLE:
+        vals = tuple(rows)
+    else:
+        vals = numpy.array(rows, dtype=float).reshape(len(rows), a["w"])
+    return Array(mk_qty(a["q"]), vals)
+
+
+def points_of(a):
+    """number of points of a curve array, known from how it was built (never asked of the library)"""
+    return len(a["v"])
+
+
+def shape_name(a):
+    return "flat" if a.get("w") is None else "points"
 
 
 _PYOP = {"sum": lambda a, b: a + b, "sub": lambda a, b: a - b, "mul": lambda a, b: a * b, "div": lambda a, b: a / b}
@@ -589,16 +619,54 @@ def chain_cases(ctx, rng, n):
         yield dict(op="chain", _t=dict(cmds=cmds))
 
 
+def curve_array(rng, rows, w=None, kind=None, fixed=None):
+    q = rng.choice((QL, QD, "empty"))
+    if w is None:
+        if fixed is None:
+            fixed = rows >= 2 and rng.random() < 0.4
+        return dict(cls="FixedArray" if fixed else "Array", k=kind or rng.choice(KINDS), v=[enc(x) for x in nums(rng, rows)], q=q)
+    return dict(cls="Array", k=kind or rng.choice(KINDS), w=w, v=[[enc(float(x)) for x in nums(rng, w)] for _ in range(rows)], q=q)
+
+
 def curve_cases(ctx, rng, n):
+    """Curves over arrays of every container shape.  Around a base count `p` the pool holds flat arrays and arrays
+    of pairs / triples with `p` points, and - the interesting collisions - arrays with the same number of SCALARS
+    but another number of points (p*w flat values, p/w rows of width w), plus unrelated lengths."""
     for i in range(n):
-        arrs = []
-        for _ in range(rng.randint(2, 6)):
-            ln = rng.choice((0, 1, 2, 3, 3, 3, 4))
-            fixed = ln >= 2 and rng.random() < 0.5
-            arrs.append(dict(cls="FixedArray" if fixed else "Array", k=rng.choice(KINDS), v=[enc(x) for x in nums(rng, ln)],
-                             q=rng.choice((QL, QD, "empty"))))
+        p = rng.choice((1, 2, 2, 3, 4, 4, 6))
+        templates = [(p, None), (p, None), (p, 2), (p, 3), (p * 2, None), (p * 3, None), (p * 2, 2),
+                     (rng.choice((0, 1, 2, 3, 4, 5)), None), (rng.choice((0, 1, 2, 3)), rng.choice((2, 3)))]
+        if p % 2 == 0:
+            templates.append((p // 2, 2))
+        if p % 3 == 0:
+            templates.append((p // 3, 3))
+        if i % 4 == 0:  # the earlier flat-only stream
+            templates = [(rng.choice((0, 1, 2, 3, 3, 3, 4)), None) for _ in range(6)]
+        arrs = [curve_array(rng, rows, w) for rows, w in rng.sample(templates, rng.randint(2, min(6, len(templates))))]
         ops = [dict(set=rng.choice(("image", "domain")), a=rng.randrange(len(arrs))) for _ in range(rng.randint(0, 10))]
         yield dict(op="curve", _t=dict(arrs=arrs, image=rng.randrange(len(arrs)), domain=rng.randrange(len(arrs)), ops=ops))
+
+
+def curve_grid_cases(ctx):
+    """Exhaustive small part: every ordered pair of shapes (flat / pairs / triples) x containers x point counts 0..4
+    for the constructor, and one SetImage and one SetDomain of every such array on a valid curve of 2 and of 4 points."""
+    rng = ctx.fresh_rng("C11curvegrid")
+    pool = []
+    for rows in (0, 1, 2, 3, 4, 6):
+        for k in KINDS:
+            pool.append(curve_array(rng, rows, None, k, fixed=False))
+    for rows in (1, 2, 3, 4):
+        for w in (2, 3):
+            for k in (K_LIST, K_ND):
+                pool.append(curve_array(rng, rows, w, k))
+    for a in range(len(pool)):
+        for b in range(len(pool)):
+            yield dict(op="curve", _t=dict(arrs=[pool[a], pool[b]], image=0, domain=1, ops=[]))
+    for base in (2, 4):
+        for a in range(len(pool)):
+            arrs = [curve_array(rng, base, None, K_LIST, fixed=False), curve_array(rng, base, None, K_ND, fixed=False), pool[a]]
+            yield dict(op="curve", _t=dict(arrs=arrs, image=0, domain=1, ops=[dict(set="image", a=2), dict(set="domain", a=2),
+                                                                             dict(set="image", a=0), dict(set="domain", a=2)]))
 
 
 def setup(ctx):
@@ -610,7 +678,7 @@ def cases(ctx):
     cid = 0
     for gen in (construction_cases(ctx, rng), single_op_cases(ctx, rng),
                 chain_cases(ctx, rng, 500 if ctx.tier == "quick" else 20000),
-                curve_cases(ctx, rng, 300 if ctx.tier == "quick" else 5000)):
+                curve_grid_cases(ctx), curve_cases(ctx, rng, 300 if ctx.tier == "quick" else 5000)):
         for c in gen:
             c["cid"] = cid
             cid += 1
@@ -619,7 +687,8 @@ def cases(ctx):
 
 def search(ctx):
     rng = ctx.fresh_rng("C11search")
-    for gen in (construction_cases(ctx, rng), single_op_cases(ctx, rng), chain_cases(ctx, rng, 2000), curve_cases(ctx, rng, 1000)):
+    for gen in (construction_cases(ctx, rng), single_op_cases(ctx, rng), chain_cases(ctx, rng, 2000), curve_grid_cases(ctx),
+                curve_cases(ctx, rng, 1000)):
         for c in gen:
             c["cid"] = -1
             yield c
@@ -723,7 +792,7 @@ def impl(c, ctx):
 def run_curve(t):
     from barril.curve.curve import Curve
 
-    arrs = [mk_operand(a) for a in t["arrs"]]
+    arrs = [mk_curve_array(a) for a in t["arrs"]]
     ids = {id(a): i for i, a in enumerate(arrs)}
     c, e = attempt(lambda: Curve(arrs[t["image"]], arrs[t["domain"]]))
     if e is not None:
@@ -744,7 +813,7 @@ def model_line(c):
         return route_line(t)
     if c["op"] == "curve":
         def carr(i):
-            return dict(id=i, len=len(t["arrs"][i]["v"]))
+            return dict(id=i, len=points_of(t["arrs"][i]), w=t["arrs"][i].get("w"))
         return dict(op="curve", image=carr(t["image"]), domain=carr(t["domain"]),
                     ops=[dict(set=o["set"], a=carr(o["a"])) for o in t["ops"]])
     chain = t if c["op"] == "chain" else dict(cmds=[dict(make=t["src"]), dict(src=0, o=t["o"])])
@@ -883,12 +952,19 @@ def _count(ctx, c, io):
         ln = ctx.notes.setdefault("chain_lengths", {})
         ln[str(n)] = ln.get(str(n), 0) + 1
     elif c["op"] == "curve":
-        if io.get("new") != "ok":
-            hit("Curve() -> err:%s" % io.get("new"))
-        else:
-            hit("Curve() -> ok")
+        def scalars(a):
+            return points_of(a) * (a.get("w") or 1)
+
+        def rel(a, b):  # how the two arrays relate: what the guard must look at, and what it must not
+            return "%s/%s %s-points %s-scalars" % (shape_name(a), shape_name(b), "same" if points_of(a) == points_of(b) else "other",
+                                                   "same" if scalars(a) == scalars(b) else "other")
+
+        ai, ad = t["arrs"][t["image"]], t["arrs"][t["domain"]]
+        hit("Curve(%s) -> %s" % (rel(ai, ad), "ok" if io.get("new") == "ok" else "err:%s" % io.get("new")))
+        if io.get("new") == "ok":
             for o, s in zip(t["ops"], io.get("steps", [])):
-                hit("curve: Set%s -> %s" % (o["set"].capitalize(), s["res"] if s["res"] == "ok" else "err:" + s["res"]))
+                hit("curve: Set%s(%s) -> %s" % (o["set"].capitalize(), shape_name(t["arrs"][o["a"]]),
+                                                s["res"] if s["res"] == "ok" else "err:" + s["res"]))
 
 
 def agree(c, io, mo, ctx):
@@ -1219,29 +1295,45 @@ def _check_chain(t):
 
 
 def _check_curve(t):
+    """A Curve never holds an image and a domain with different numbers of points, whatever their containers; the
+    number of points of every array is known from its construction and the held arrays are recognised by identity."""
     from barril.curve.curve import Curve
 
-    arrs = [mk_operand(a) for a in t["arrs"]]
-    li, ld = len(arrs[t["image"]].GetValues()), len(arrs[t["domain"]].GetValues())
+    arrs = [mk_curve_array(a) for a in t["arrs"]]
+    npts = {id(obj): points_of(a) for obj, a in zip(arrs, t["arrs"])}
+    shapes = {id(obj): "%s[%d]" % (shape_name(a) + ("x%d" % a["w"] if a.get("w") else ""), points_of(a)) for obj, a in zip(arrs, t["arrs"])}
+
+    def held_points(c):
+        i, d = c.GetImage(), c.GetDomain()
+        if id(i) not in npts or id(d) not in npts:
+            return None
+        return npts[id(i)], npts[id(d)]
+
+    li, ld = npts[id(arrs[t["image"]])], npts[id(arrs[t["domain"]])]
+    what = "Curve(%s, %s)" % (shapes[id(arrs[t["image"]])], shapes[id(arrs[t["domain"]])])
     c, e = attempt(lambda: Curve(arrs[t["image"]], arrs[t["domain"]]))
     if e is not None:
         if li != ld and isinstance(e, ValueError):
             return None
-        return dict(clause="Curve(image, domain) fails only for different lengths, with ValueError", lengths=(li, ld), observed=repr(e))
+        return dict(clause="Curve(image, domain) fails only for different lengths, with ValueError", call=what, points=(li, ld), observed=repr(e))
     if li != ld:
-        return dict(clause="a Curve never holds an image and a domain of different lengths", at="constructor", lengths=(li, ld))
+        return dict(clause="a Curve never holds an image and a domain of different lengths", at="constructor", call=what, points=(li, ld))
     for pos, o in enumerate(t["ops"]):
         a = arrs[o["a"]]
         held = (c.GetImage(), c.GetDomain())
+        call = "Set%s(%s) on a curve holding (%s, %s)" % (o["set"].capitalize(), shapes[id(a)], shapes.get(id(held[0])), shapes.get(id(held[1])))
         _, e = attempt(lambda: (c.SetImage(a) if o["set"] == "image" else c.SetDomain(a)))
-        li, ld = len(c.GetImage().GetValues()), len(c.GetDomain().GetValues())
-        if li != ld:
-            return dict(clause="a Curve never holds an image and a domain of different lengths", at=pos, op=o, lengths=(li, ld))
+        pts = held_points(c)
+        if pts is None:
+            return dict(clause="a Curve holds the arrays it was given", at=pos, op=o, call=call)
+        if pts[0] != pts[1]:
+            return dict(clause="a Curve never holds an image and a domain of different lengths", at=pos, op=o, call=call, points=pts,
+                        setter="accepted" if e is None else "rejected")
         if e is not None:
             if not isinstance(e, ValueError):
-                return dict(clause="a rejected setter raises ValueError", at=pos, op=o, observed=repr(e))
-            if (c.GetImage(), c.GetDomain()) != held or c.GetImage() is not held[0] or c.GetDomain() is not held[1]:
-                return dict(clause="a rejected setter leaves the curve unchanged", at=pos, op=o)
+                return dict(clause="a rejected setter raises ValueError", at=pos, op=o, call=call, observed=repr(e))
+            if c.GetImage() is not held[0] or c.GetDomain() is not held[1]:
+                return dict(clause="a rejected setter leaves the curve unchanged", at=pos, op=o, call=call)
     return None
 
 
